@@ -773,7 +773,7 @@ Fixpoint ce (t : ty) (v : pyval) {struct t} : cres :=
       | Reject => ce_enum_inner members v
       | Escape z => CEscape z
       | Ok x =>
-          guard_c S_enum_collect (raw_unit (enum_lookup n members x)) (CTree (EWrongType (expected t false) x false None))
+          guard_c S_enum_collect (raw_unit (enum_lookup n members x)) (CTree (EWrongType (expected t false) v false None))
       end
   | TClass h fs =>
       let name := c_name h in
